@@ -456,10 +456,15 @@ def check_C19(tr):
             # only when every compartment below is far as well (the loop exits from the bottom up)
             if far.all() and np.any(np.abs(fa - p["th_fc"]) > 1e-12):
                 out.append(V("C19:fcadj_far", "adjusted field capacity differs from field capacity although the table is far below on step %d" % t, step=t))
-        below = p["zMid"] >= zgw
+        # centres from the thicknesses the model runs on (the property speaks of the compartment's centre); the profile's own
+        # zMid array is stale after the profile was deepened (open finding of C18) - where the two disagree the violation is
+        # keyed ":deepened" so that it is told apart from any other cause
+        centre = np.cumsum(p["dz"]) - p["dz"] / 2
+        below = centre >= zgw - 1e-12
         if below.any() and np.any(th[below] < p["th_s"][below] - 1e-9):
             i = int(np.argmax(below & (th < p["th_s"] - 1e-9)))
-            out.append(V("C19:below_table_unsaturated", "compartment %d (centre %.3g m) lies below the table (%.3g m) but ends the day at th=%.6g < th_s=%.4g on step %d" % (i, p["zMid"][i], zgw, th[i], p["th_s"][i], t), step=t))
+            stale = not (p["zMid"][i] >= zgw)
+            out.append(V("C19:below_table_unsaturated" + (":deepened" if stale else ""), "compartment %d (centre %.3g m%s) lies below the table (%.3g m) but ends the day at th=%.6g < th_s=%.4g on step %d" % (i, centre[i], (", stale zMid %.3g m" % p["zMid"][i]) if stale else "", zgw, th[i], p["th_s"][i], t), step=t))
         if "th_after_cr" in d and f[FL["CR"]] > 0:
             th_cr = d["th_after_cr"]; fa = d["fcadj_at_cr"]; th_b = d["th_before_cr"]
             # only compartments that received capillary rise
